@@ -983,11 +983,7 @@ where
             }))
           }
           Err(TrySendError::Full(wc)) => {
-            #[cfg(rustdds_verif)]
-            crate::verif::sched::point("AsyncWrite.full.before_store_waker");
             *self.writer.cc_upload_waker.lock().unwrap() = Some(cx.waker().clone());
-            #[cfg(rustdds_verif)]
-            crate::verif::sched::point("AsyncWrite.full.after_store_waker");
             if Instant::now() < self.timeout_instant {
               // Put our command back
               self.writer_command = Some(wc);
